@@ -676,6 +676,17 @@ struct ZoneEngine : Engine {
 		}
 		if (ts.empty())
 			return v;
+		/* every third tool-level plan asks within hours of an inserted leap second: the zone offset is wall-clock
+		 * arithmetic, whatever lies between the UTC reading and the local one */
+		if ((p.hash() >> 19) % 3 == 0) {
+			static const int64_t leaps[] = {78796800, 94694400, 126230400, 157766400, 189302400, 220924800, 252460800, 283996800, 315532800,
+							362793600, 394329600, 425865600, 489024000, 567993600, 631152000, 662688000, 709948800, 741484800,
+							773020800, 820454400, 867715200, 915148800, 1136073600, 1230768000, 1341100800, 1435708800, 1483228800};
+			int64_t c = leaps[(p.hash() >> 22) % (sizeof(leaps) / sizeof(*leaps))];
+			int64_t cand = c + (int64_t)((p.hash() >> 27) % 100800) - 50400;	/* +-14 h */
+			if (m.ent.empty() || cand >= m.ent.front().t)
+				ts[0] = cand;
+		}
 		Plan q;
 		q.engine = p.engine;
 		q.variant = p.variant;
@@ -713,16 +724,31 @@ struct ZoneEngine : Engine {
 			if (!sparse(m))
 				return v;
 			q.argv = {"dconv", "--from-zone", "/sim/zi/Z", "-f", "%FT%T"};
+			bool timeonly = ((p.hash() >> 17) & 3) == 0;	/* the date comes from --base, given with a time of day of its own */
 			for (auto t : ts) {
 				int64_t l = t + m.off_at(t);
 				auto S = inverse_set(m, l);
 				if (S.size() != 1 || (!m.ent.empty() && l - 16 * 3600 < m.ent.front().t))
 					continue;
+				if (timeonly) {
+					std::string iso = model::fmt_iso(l);
+					static const char *tod[] = {"T00:30:00", "T23:59:59", "T12:00:00", "T00:00:01"};
+					q.argv.insert(q.argv.begin() + 1, {"-b", iso.substr(0, 10) + tod[(p.hash() >> 29) & 3]});
+					q.argv.push_back(iso.substr(11));
+					/* a bare time stays a bare time: the base lends its date to the conversion only */
+					for (auto &a : q.argv)
+						if (a == "%FT%T")
+							a = "%T";
+					expect += model::fmt_iso(S[0]).substr(11) + "\n";
+					break;
+				}
 				q.argv.push_back(model::fmt_iso(l));
 				expect += model::fmt_iso(S[0]) + "\n";
 			}
 			if (q.argv.size() == 5)
 				return v;
+			if (timeonly && collect)
+				st.named["tool_time_only_with_base"]++;
 		} else if (mode == 4) {
 			/* from the zone under test into a zone with a constant positive offset: time and printed offset */
 			if (!sparse(m))
@@ -824,7 +850,7 @@ struct ZoneEngine : Engine {
 					return v;
 		}
 		/* the same values as arguments, as plain stdin lines, in sed mode or in empty mode: four reader paths */
-		if (mode != 3 && mode != 5) {
+		if (mode != 3 && mode != 5 && q.argv[1] != "-b") {
 			unsigned delivery = (unsigned)((p.hash() >> 11) % 4);
 			size_t nfix = mode == 4 ? 7 : 5;
 			if (delivery && q.argv.size() > nfix) {
